@@ -101,6 +101,14 @@ Definition is_nil (l : list nat) : bool := match l with [] => true | _ => false 
 Definition flag (s : st) (b : bool) : st := set_ub s (ub s || b).
 
 (* ---------------------------------------------------------------- programs *)
+(* variable v of a thread lives in slot 2v of its table; slot 2v+1 is the local `mem` of the
+   device::malloc call that fills v (its `return mem;` copies the wrapper and destroys the local:
+   GCC does not elide that copy because the function also has `return memory();`).  Which of the
+   two wrappers survives is immaterial: the model keeps the one bound to the variable and lets the
+   copy be the temporary; the ring sees the same addRef, removeRef, test in the same order. *)
+Definition uv (v : nat) : nat := 2 * v.
+Definition tv (v : nat) : nat := S (2 * v).
+
 Inductive op :=
 | OMalloc (dst : nat) (size : Z)      (* dst = device.malloc(size)               (dst unbound) *)
 | OCopy (src dst : nat)               (* dst = new memory(src)                   (dst unbound) *)
@@ -112,11 +120,12 @@ Inductive op :=
    hooks/C30-1.patch at which the real thread is parked when the model thread is at that pc *)
 Inductive pc :=
 | PIdle                                   (* between two operations (driver's own schedule point) *)
-| PMal1 (h b : nat) (sz : Z)              (* buffer constructed, in the device ring *)
-| PMal2 (h b m : nat) (sz : Z)            (* modeMemory_t constructed, in the buffer ring *)
-| PMal3 (sz : Z)                          (* wrapper registered; ptBeforeBytes; sz = the local `bytes` *)
-| PMalWr (sz : Z) (v : Z)                 (* unfixed: bytesAllocated read (= v), not yet written *)
-| PMalEnd                                 (* ptAfterBytes *)
+| PMal1 (h b : nat) (sz : Z) (dst : nat)   (* buffer constructed, in the device ring *)
+| PMal2 (h b m : nat) (sz : Z) (dst : nat) (* modeMemory_t constructed, in the buffer ring *)
+| PMal3 (sz : Z) (dst : nat)              (* wrapper registered; ptBeforeBytes; sz = the local `bytes` *)
+| PMalWr (sz : Z) (v : Z) (dst : nat)     (* unfixed: bytesAllocated read (= v), not yet written *)
+| PMalEnd (dst : nat)                     (* ptAfterBytes; next: `return mem` copies the wrapper *)
+| PMalRet (dst : nat)                     (* the copy is registered; next: ~memory of the local `mem` *)
 | PSl1 (h m : nat)                        (* slice: modeMemory_t constructed, in the buffer ring *)
 | PDrop1 (m : nat) (r : option bool)      (* wrapper out of the ring; ptAfterRemoveRef;
                                              r = the test made under the lock (fixed code) *)
@@ -152,50 +161,62 @@ Definition new_memory (s : st) (b : nat) : nat * st :=
                           (upd (mbuf s) m (Some b)))
                 (upd (bring s) b (ring_add (bring s b) m))).
 
+(* copy constructor into the free slot (t', d) of a wrapper that sits in slot (t, a) *)
+Definition do_copy (t : nat) (s : st) (a t' d : nat) : st :=
+  match vars s t a, vars s t' d with
+  | Some hs, None =>
+      match hptr s hs with
+      | Some m => let '(h, s) := new_handle s t' d in register s h m
+      | None => s
+      end
+  | _, _ => s
+  end.
+
+(* ~memory of the wrapper in slot (t, a): the slot is free again; removeMemoryRef *)
+Definition do_drop (t : nat) (s : st) (a : nat) (rest : list op) : st * thread :=
+  match vars s t a with
+  | None => (s, at_pc PIdle rest)
+  | Some h =>
+      let s := set_vars s (upd2 (vars s) t a None) in
+      match hptr s h with
+      | None => (s, at_pc PIdle rest)            (* removeMemoryRef: if (!modeMemory) return *)
+      | Some m =>
+          (* modeMemory->removeMemoryRef(this): lock; unlink; unlock *)
+          let s := flag s (negb (malive s m)) in
+          let l := ring_rem h (mring s m) in
+          let s := set_mring s (upd (mring s) m l) in
+          (s, at_pc (PDrop1 m (if v_test V then Some (is_nil l) else None)) rest)
+      end
+  end.
+
 (* the operation at the head of the program starts: its first shared step *)
 Definition start_op (t : nat) (s : st) (o : op) (rest : list op) : st * thread :=
   let skip := (s, at_pc PIdle rest) in
   match o with
   | OMalloc dst size =>
-      match vars s t dst with
-      | Some _ => skip
-      | None =>
+      match vars s t (uv dst), vars s t (tv dst) with
+      | None, None =>
           if (size <=? 0)%Z then skip else
-          let '(h, s) := new_handle s t dst in
+          let '(h, s) := new_handle s t (uv dst) in
           (* new serial::buffer(device, bytes): modeDevice->addMemoryRef(this) *)
           let b := nb s in
           let s := set_dring (set_bsize (set_balive (set_nb s (S b)) (upd (balive s) b true))
                                         (upd (bsize s) b size))
                              (ring_add (dring s) b) in
-          (s, at_pc (PMal1 h b size) rest)
-      end
-  | OCopy src dst =>
-      match vars s t src, vars s t dst with
-      | Some hs, None =>
-          match hptr s hs with
-          | Some m => let '(h, s) := new_handle s t dst in (register s h m, at_pc PIdle rest)
-          | None => skip
-          end
+          (s, at_pc (PMal1 h b size dst) rest)
       | _, _ => skip
       end
-  | OSend src t' dst =>
-      match vars s t src, vars s t' dst with
-      | Some hs, None =>
-          match hptr s hs with
-          | Some m => let '(h, s) := new_handle s t' dst in (register s h m, at_pc PIdle rest)
-          | None => skip
-          end
-      | _, _ => skip
-      end
+  | OCopy src dst => (do_copy t s (uv src) t (uv dst), at_pc PIdle rest)
+  | OSend src t' dst => (do_copy t s (uv src) t' (uv dst), at_pc PIdle rest)
   | OSlice src dst =>
-      match vars s t src, vars s t dst with
+      match vars s t (uv src), vars s t (uv dst) with
       | Some hs, None =>
           match hptr s hs with
           | Some m =>
               let s := flag s (negb (malive s m)) in
               match mbuf s m with
               | Some b =>
-                  let '(h, s) := new_handle s t dst in
+                  let '(h, s) := new_handle s t (uv dst) in
                   let '(m', s) := new_memory s b in
                   (s, at_pc (PSl1 h m') rest)
               | None => skip                         (* "ModeMemory not initialized or has been freed" *)
@@ -204,21 +225,7 @@ Definition start_op (t : nat) (s : st) (o : op) (rest : list op) : st * thread :
           end
       | _, _ => skip
       end
-  | ODrop v =>
-      match vars s t v with
-      | None => skip
-      | Some h =>
-          let s := set_vars s (upd2 (vars s) t v None) in
-          match hptr s h with
-          | None => (s, at_pc PIdle rest)            (* removeMemoryRef: if (!modeMemory) return *)
-          | Some m =>
-              (* modeMemory->removeMemoryRef(this): lock; unlink; unlock *)
-              let s := flag s (negb (malive s m)) in
-              let l := ring_rem h (mring s m) in
-              let s := set_mring s (upd (mring s) m l) in
-              (s, at_pc (PDrop1 m (if v_test V then Some (is_nil l) else None)) rest)
-          end
-      end
+  | ODrop v => do_drop t s (uv v) rest
   end.
 
 (* one step of thread t *)
@@ -230,18 +237,23 @@ Definition tstep (t : nat) (s : st) (th : thread) : st * thread :=
       | [] => (s, th)
       | o :: rest' => start_op t s o rest'
       end
-  | PMal1 h b sz =>
+  | PMal1 h b sz dst =>
       (* new serial::memory(buf, bytes, 0) *)
-      let '(m, s) := new_memory s b in (s, at_pc (PMal2 h b m sz) rest)
-  | PMal2 h b m sz =>
+      let '(m, s) := new_memory s b in (s, at_pc (PMal2 h b m sz dst) rest)
+  | PMal2 h b m sz dst =>
       (* memory mem(modeMemory) *)
-      (register s h m, at_pc (PMal3 sz) rest)
-  | PMal3 sz =>
+      (register s h m, at_pc (PMal3 sz dst) rest)
+  | PMal3 sz dst =>
       (* modeDevice->bytesAllocated += bytes *)
-      if v_bytes V then (set_bytes s (bytes s + sz)%Z, at_pc PMalEnd rest)
-      else (s, at_pc (PMalWr sz (bytes s)) rest)
-  | PMalWr sz v => (set_bytes s (v + sz)%Z, at_pc PMalEnd rest)
-  | PMalEnd => (s, at_pc PIdle rest)
+      if v_bytes V then (set_bytes s (bytes s + sz)%Z, at_pc (PMalEnd dst) rest)
+      else (s, at_pc (PMalWr sz (bytes s) dst) rest)
+  | PMalWr sz v dst => (set_bytes s (v + sz)%Z, at_pc (PMalEnd dst) rest)
+  | PMalEnd dst =>
+      (* return mem;  -- copy constructor of the result *)
+      (do_copy t s (uv dst) t (tv dst), at_pc (PMalRet dst) rest)
+  | PMalRet dst =>
+      (* ~memory of the local *)
+      do_drop t s (tv dst) rest
   | PSl1 h m => (register s h m, at_pc PIdle rest)
   | PDrop1 m r =>
       let '(test, s) := match r with
@@ -316,7 +328,7 @@ Definition sys_run (c : sys) (sched : list nat) : sys := fold_left sys_step sche
    operations): a thread can only be held where [boundary] is true *)
 Definition boundary (p : pc) : bool :=
   match p with
-  | PIdle | PMal3 _ | PMalEnd | PDrop1 _ _ | PBuf1 _ _ _ | PBufBytes _ _ | PBufDev _ _ => true
+  | PIdle | PMal3 _ _ | PMalEnd _ | PDrop1 _ _ | PBuf1 _ _ _ | PBufBytes _ _ | PBufDev _ _ => true
   | _ => false
   end.
 
